@@ -314,23 +314,32 @@ Definition a_var (fixed : list ident) (x y : ident) (m : amap) : option amap :=
       else Some ((x, y) :: m)
   end.
 
-Fixpoint a_vars (fixed : list ident) (xs ys : list ident) (m : amap) : option amap :=
+(* the relaxed correspondence: a FUNCTION from the names of the left side (identity on `fixed` names of the
+   left side), not required to be injective.  "Relaxed holds, strict fails" = the right side is the left side
+   with a generated name merged into another name: a name collision. *)
+Definition a_var_relaxed (fixed : list ident) (x y : ident) (m : amap) : option amap :=
+  match find (fun p => String.eqb x (fst p)) m with
+  | Some p => if String.eqb y (snd p) then Some m else None
+  | None => if mem x fixed && negb (String.eqb x y) then None else Some ((x, y) :: m)
+  end.
+
+Fixpoint a_vars (av : ident -> ident -> amap -> option amap) (xs ys : list ident) (m : amap) : option amap :=
   match xs, ys with
   | [], [] => Some m
-  | x :: xs', y :: ys' => match a_var fixed x y m with Some m1 => a_vars fixed xs' ys' m1 | None => None end
+  | x :: xs', y :: ys' => match av x y m with Some m1 => a_vars av xs' ys' m1 | None => None end
   | _, _ => None
   end.
 
-Fixpoint a_tree (fixed : list ident) (t u : tree) (m : amap) : option amap :=
+Fixpoint a_tree (av : ident -> ident -> amap -> option amap) (t u : tree) (m : amap) : option amap :=
   match t, u with
   | T g a v k, T g' a' v' k' =>
       if String.eqb g g' && list_eqb atom_eqb a a' then
-        match a_vars fixed v v' m with
+        match a_vars av v v' m with
         | Some m1 =>
             (fix go (k k' : list tree) (m : amap) : option amap :=
                match k, k' with
                | [], [] => Some m
-               | x :: r, y :: r' => match a_tree fixed x y m with Some m' => go r r' m' | None => None end
+               | x :: r, y :: r' => match a_tree av x y m with Some m' => go r r' m' | None => None end
                | _, _ => None
                end) k k' m1
         | None => None
@@ -341,7 +350,10 @@ Fixpoint a_tree (fixed : list ident) (t u : tree) (m : amap) : option amap :=
 (* the structural comparison: `g` (a real transform output) equals `f` (the
    model's output) up to a bijective renaming that fixes the names in `fixed` *)
 Definition func_alpha_eqb (fixed : list ident) (f g : func) : bool :=
-  match a_tree fixed (tree_of_func f) (tree_of_func g) [] with Some _ => true | None => false end.
+  match a_tree (a_var fixed) (tree_of_func f) (tree_of_func g) [] with Some _ => true | None => false end.
+
+Definition func_alpha_relaxed (fixed : list ident) (f g : func) : bool :=
+  match a_tree (a_var_relaxed fixed) (tree_of_func f) (tree_of_func g) [] with Some _ => true | None => false end.
 
 (* ---------------------------------------------------------------- programs *)
 Fixpoint prog_update (P : program) (f : ident) (T : func -> func) : program :=
